@@ -294,8 +294,37 @@ def check_quit(program, rep):
                 rep.bad('C14.quit', f.where, 'finally: return/raise',
                         'a finally clause that returns or raises swallows '
                         'other exceptions', line=t.lineno)
-    rep.floor('C14.quit', 'exception handlers in start/loop', n_h, 2)
     f = lp.methods['start']
+    # a context manager of the package around the loop (its __enter__ /
+    # __exit__ set `running` and absorb Quit): not modelled - no verdict
+    cms = [w_ for w_ in ast.walk(f.node) if isinstance(w_, ast.With)
+           for it_ in w_.items if isinstance(it_.context_expr, ast.Call)
+           and (program.lookup_class(f.module, dotted(
+               it_.context_expr.func) or '') is not None)
+           and '__exit__' in program.lookup_class(
+               f.module, dotted(it_.context_expr.func)).methods]
+    if cms:
+        cmc = program.lookup_class(f.module, dotted(
+            cms[0].items[0].context_expr.func))
+        ex_ = cmc.methods['__exit__']
+        et = ex_.params()[1] if len(ex_.params()) > 1 else 'exc_type'
+        exact = [c for c in ast.walk(ex_.node) if isinstance(c, ast.Compare)
+                 and len(c.ops) == 1 and isinstance(c.ops[0], (ast.Is, ast.Eq))
+                 and norm(c.left) == et and (dotted(c.comparators[0]) or ''
+                                             ).split('.')[-1] == 'Quit']
+        if exact:
+            rep.bad('C14.quit', ex_.where, exact[0],
+                    'the context manager absorbs the exception only when its '
+                    'type IS Quit: a subclass of Quit (which `except Quit` '
+                    'catches) propagates out of start() and leaves running '
+                    'true', line=exact[0].lineno)
+        rep.inconclusive('C14.quit', f.where, cms[0].items[0].context_expr,
+                         'start() runs the loop inside a context manager of '
+                         'the package; the effect of its __enter__ / __exit__ '
+                         '(setting `running`, absorbing Quit) is not '
+                         'modelled', line=cms[0].lineno)
+        return
+    rep.floor('C14.quit', 'exception handlers in start/loop', n_h, 2)
     # paths of start() on which Quit was caught: running ends false, world
     # and handle are left alone (the handler may live in a private helper)
     wq = Walker(program, _D(program, exc=True))
